@@ -121,6 +121,10 @@ def plan_seq(pid, tier, seed, ncpu):
             # more expired entries pending than one maintenance batch (100 / 500) purges
             js += seq_jobs(bindirs["dbg"], workdir, known, pid, "bulk", scale(tier, 240, 6000), 1300, seed, 4, prefix="bulk")
         # concurrent clauses
+        if pid in ("C03", "C10"):
+            # the release profile has no debug_assert: counter drift shows as drift, not as a panic
+            js += con_jobs(bindirs["rel"], workdir, known, pid, "baton", seed + 2, 2, programs=scale(tier, 1600, 40000), schedules=scale(tier, 10, 20), variant="rel")
+            js += con_jobs(bindirs["rel"], workdir, known, pid, "stress", seed + 2, 2, programs=scale(tier, 300, 8000), schedules=scale(tier, 5, 10), variant="rel")
         if pid in ("C03", "C07", "C10"):
             js += con_jobs(bindirs["dbg"], workdir, known, pid, "baton", seed, 4, programs=scale(tier, 1600, 40000), schedules=scale(tier, 10, 20))
             js += con_jobs(bindirs["dbg"], workdir, known, pid, "stress", seed, 2, programs=scale(tier, 300, 8000), schedules=scale(tier, 5, 10))
@@ -152,7 +156,7 @@ def plan_seq(pid, tier, seed, ncpu):
                       "key exactly once, value written by an insert that began before the iteration ended and not replaced by a write that completed before it began.")
     fl = {k: int(v * (1 if tier == "quick" else min(mult, 10))) for k, v in floors.items()}
     fl.update(extra_floors)
-    variants = ["dbg"] + (["rel"] if (tier == "thorough" and pid == "C04") else [])
+    variants = ["dbg"] + (["rel"] if ((tier == "thorough" and pid == "C04") or pid in ("C03", "C10")) else [])
     return dict(variants=variants, jobs=jobs, floors=fl,
                 rule=rule + extra_rule, assumptions=COMMON_ASSUMPTIONS + (CON_ASSUMPTIONS[len(COMMON_ASSUMPTIONS):] if extra_rule else []),
                 watchdog_s=scale(tier, 900, 7200))
@@ -210,6 +214,9 @@ def plan_c02(pid, tier, seed, ncpu):
     def jobs(bindirs, workdir, known):
         js = con_jobs(bindirs["dbg"], workdir, known, pid, "baton", seed, max(1, ncpu * 3 // 4), programs=progs, schedules=scale(tier, 20, 50))
         js += con_jobs(bindirs["dbg"], workdir, known, pid, "stress", seed, max(1, ncpu // 4), programs=stress, schedules=scale(tier, 10, 20))
+        # a one-thread history is an interleaving too: un-synced reads/writes, idle deadlines, invalidations
+        for prof in ("invalidate", "tti", "general"):
+            js += seq_jobs(bindirs["dbg"], workdir, known, pid, prof, scale(tier, 40000, 1000000), 50, seed, 2, prefix="c02seq")
         return js
 
     m = 1 if tier == "quick" else 10
@@ -232,6 +239,9 @@ def plan_c09(pid, tier, seed, ncpu):
         js += con_jobs(bindirs["dbg"], workdir, known, pid, "burst1", seed, 2, rounds=scale(tier, 40, 1000))
         js += con_jobs(bindirs["dbg"], workdir, known, pid, "burstn", seed, 2, rounds=scale(tier, 12, 200))
         js += con_jobs(bindirs["dbg"], workdir, known, pid, "stress", seed, 2, programs=scale(tier, 200, 6000), schedules=scale(tier, 5, 10))
+        # single-threaded multi-step histories under the progress guard (bounded maintenance loops)
+        for prof in ("capacity", "general", "safety"):
+            js += seq_jobs(bindirs["dbg"], workdir, known, pid, prof, scale(tier, 60000, 1500000), 50, seed, 2, prefix="c09seq")
         if tier == "thorough":
             js += con_jobs(bindirs["rel"], workdir, known, pid, "burst1", seed + 7, 2, rounds=400, variant="rel")
             js += con_jobs(bindirs["rel"], workdir, known, pid, "burstn", seed + 7, 2, rounds=100, variant="rel")
@@ -245,7 +255,9 @@ def plan_c09(pid, tier, seed, ncpu):
                      "while others issue > write-queue-size inserts) under the serialized scheduler: deadlock = unfinished threads but none runnable, livelock = step budget "
                      "(20000 + 4000 x ops) exhausted; (2) single-threaded bursts of 10 x 384 un-synced operations in both housekeeping regimes (clock within / beyond the "
                      "500 ms periodical-sync interval): more than 2 retries of one write op at the back-off hook, or no maintenance run at all, is a violation; (3) at every "
-                     "quiescence the maintenance flag must be clear and the queues drained by sync(). Non-trivial: a contention program or a burst; distinct by program "
+                     "quiescence the maintenance flag must be clear and the queues drained by sync(); (4) seeded single-threaded histories under a progress guard: a "
+                     "maintenance batch loop that runs more than 50000 iterations within one call (the loops are bounded by batch 500 x 5 repeats), or a write op retried more "
+                     "than 100 times with no other thread alive, never returns. Non-trivial: a contention program or a burst; distinct by program "
                      "fingerprint / (seed, round).",
                 assumptions=CON_ASSUMPTIONS + ["unbounded 'every call returns' is restated as bounded progress; a finite run cannot decide liveness beyond its bounds"],
                 watchdog_s=scale(tier, 900, 7200))
